@@ -1,12 +1,15 @@
 """C20 — experiments and tomographies accept exactly the well-formed schedules.
 
-Model: coq/theories/Model/C20_Schedule.v (executed through Exec/C20_ops.v).  The model is FAITHFUL to the code, the
-property verdict ("spec") is derived from it through the theorems in Props/C20.v:
-  * Experiment: spec = model verdict, except that the model's "UnboundLocalError escapes" (non-iterable first
-    schedule) must be a QuaraScheduleItemError according to the property;
-  * tomography classes: spec = accepted iff every schedule has the class's documented shape (decidable predicate
-    class_shapeb, evaluated by the model); the model's own verdict is only used to classify.
-A violation is reported only when the IMPLEMENTATION differs from the spec."""
+Model: coq/theories/Model/C20_Schedule.v (executed through Exec/C20_ops.v) — the code WITH the two repairs proposed by this
+property (fixes/c20-noniterable-schedule.diff, fixes/c20-qmpt-schedule-length.diff).  The property theorems of Props/C20.v
+are about this model: it accepts exactly the well-formed schedule lists and rejects everything else with the item / order
+error (C20_accepted_or_item_or_order_error); every tomography class accepts exactly its documented shape
+(C20_tomo_accepts_iff_shape).  A violation is reported when the IMPLEMENTATION differs from this model (Experiment: class of
+the outcome; tomography classes: accepted or not).  When it differs, the model of the code as it was BEFORE the repairs
+(Model/C20_PreFix.v, ops c20.validate0 / c20.tomo0) is consulted on that one input: if the implementation behaves exactly
+like the old code, the violation gets the specific signature of the recorded defect (findings C20-2 / C20-1).
+Translator tie (regen_validators): gen/c20_py2coq.py + coq/gen/C20_Equiv.v re-prove on every run that _validate_schedule_item,
+_validate_schedule_order and the four class guards, regenerated from the current source, agree with the model."""
 import collections
 import itertools
 import json
@@ -192,7 +195,7 @@ def unpack(p):
 
 
 CLS = {0: "ok", 1: "item", 2: "order", 3: "unbound", 4: "guard-value", 5: "guard-index", 6: "str-value"}
-EXC = {1: "TypeError", 2: "ValueError", 3: "IndexError"}
+EXC = {1: "TypeError", 2: "ValueError", 3: "IndexError", 4: "schedule-not-iterable"}
 REASON = {1: "too-short", 2: "first-not-state", 3: "last-not-measurement", 4: "two-states", 5: "two-povms"}
 RE_ITEM_I = re.compile(r"schedules\[(\d+)\]")
 RE_ITEM_J = re.compile(r"\n(\d+): ")
@@ -214,31 +217,28 @@ def classify_exc(ex):
     return "other:" + type(ex).__name__, None, None
 
 
-def spec_class(model_cls):
-    """what the property demands, from the faithful model's verdict"""
-    return "item" if model_cls == "unbound" else model_cls
-
-
-def judge_experiment(ctx, sub, site, impl, mod, replay):
-    """impl: (class, i, j); mod: unpacked model result. Reports a violation iff impl differs from the SPEC."""
-    mcls = CLS[mod[0]]
-    want = spec_class(mcls)
+def judge_experiment(ctx, sub, site, impl, mod, replay, prefix=None):
+    """impl: (class, i, j); mod: unpacked result of the (repaired) model. Reports a violation iff the implementation's
+    outcome class differs from the model's.  prefix: thunk -> unpacked verdict of the model of the code BEFORE the repair
+    (only evaluated on a disagreement, to recognise the recorded defect C20-2)."""
+    want = CLS[mod[0]]
     icls = impl[0]
     if icls == want:
-        if mcls == "unbound":
-            ctx.note_once("non-iterable first schedule: implementation raises QuaraScheduleItemError as the property demands; "
-                          "the faithful model (written for the pinned tree, finding C20-2) predicts UnboundLocalError")
-        elif icls in ("item", "order"):
+        if icls in ("item", "order") and mod[1] != 4:
             if (impl[1] is not None and impl[1] != mod[3]) or (icls == "item" and impl[2] is not None and impl[2] != mod[4]):
                 ctx.pos_mismatch += 1
                 ctx.note_once("error position in the message differs from the model (not part of the property): impl %s model i=%d j=%d; %s"
                               % (impl, mod[3], mod[4], json.dumps(replay)[:200]))
         return True
-    if mcls == "unbound" and icls == "unbound":
-        ctx.violation(sub, "Experiment._validate_schedules", "non-iterable-first-schedule:UnboundLocalError",
-                      "a non-iterable value as FIRST schedule is rejected with UnboundLocalError (the except-handler formats "
-                      "the unbound loop variables j, item) instead of QuaraScheduleItemError", replay)
-        return False
+    if icls == "unbound" and prefix is not None:
+        old = prefix()
+        if old is not None and CLS[old[0]] == "unbound":
+            # exactly the inputs of theorem C20_before_fix_unbound_iff (finding C20-2)
+            ctx.violation(sub, "Experiment._validate_schedules", "non-iterable-first-schedule:UnboundLocalError",
+                          "a non-iterable value as FIRST schedule is rejected with UnboundLocalError (the except-handler formats "
+                          "the unbound loop variables j, item) instead of QuaraScheduleItemError; the implementation behaves like "
+                          "the code before fix c20-noniterable-schedule", replay)
+            return False
     if icls == "ok":
         sig = "accepts-malformed"
         what = "implementation ACCEPTS a schedule list the property rejects (spec: %s, %s)" % (want, detail_text(mod))
@@ -252,8 +252,18 @@ def judge_experiment(ctx, sub, site, impl, mod, replay):
     return False
 
 
+def prefix_verdict(ctx, masks, scheds):
+    """verdict of the model of the code BEFORE fix c20-noniterable-schedule for one schedule list (JSON specs)"""
+    alpha = Alpha()
+    body = alpha.slist(scheds)
+    vals = ctx.get_model().call("c20.validate0", enc_masks(masks) + alpha.encode() + [1] + body)
+    return unpack(vals[0])
+
+
 def detail_text(mod):
     c = CLS[mod[0]]
+    if c == "item" and mod[1] == 4:
+        return "schedules[%d] is not iterable" % mod[3]
     if c == "item":
         return "schedules[%d] item %d raises %s" % (mod[3], mod[4], EXC.get(mod[1]))
     if c == "order":
@@ -386,7 +396,7 @@ def sub_items(ctx):
 # ---------------------------------------------------------------------------------------------- sub: schedule / lists
 def run_validate_batch(ctx, sub, masks, alpha, lists_idx, lists_py_fn, replay_fn):
     """lists_idx: list of schedule lists, each schedule = [-1] or [n, a1..an] flattened per list (model side);
-    lists_py_fn(n) -> python schedules argument; replay_fn(n) -> JSON replay case"""
+    lists_py_fn(n) -> python schedules argument; replay_fn(n) -> JSON replay case (must carry "lists": [schedule list])"""
     from quara.qcircuit.experiment import Experiment
     m = ctx.get_model()
     head = enc_masks(masks) + alpha.encode()
@@ -408,8 +418,10 @@ def run_validate_batch(ctx, sub, masks, alpha, lists_idx, lists_py_fn, replay_fn
             except Exception as ex:
                 impl = classify_exc(ex)
             ctx.count(sub, key=(mkey, tuple(chunk[n])), label=label_of(mod), nontrivial=len(chunk[n]) >= 4)
-            if impl[0] != spec_class(CLS[mod[0]]) or impl[0] in ("item", "order") or mod[0] == 3:
-                judge_experiment(ctx, sub, "Experiment._validate_schedules", impl, mod, replay_fn(off + n))
+            if impl[0] != CLS[mod[0]] or impl[0] in ("item", "order"):
+                rep = replay_fn(off + n)
+                judge_experiment(ctx, sub, "Experiment._validate_schedules", impl, mod, rep,
+                                 prefix=lambda rep=rep: prefix_verdict(ctx, masks, rep["lists"][0]))
 
 
 def chk_schedule(ctx, case):
@@ -544,10 +556,12 @@ def chk_setters(ctx, case):
     except Exception as ex:
         impl = classify_exc(ex)
     ctx.count("setters", key=("ctor", json.dumps(case)), label="ctor-" + label_of(vals[0]), nontrivial=False)
-    if not judge_experiment(ctx, "setters", "Experiment._validate_schedules", impl, vals[0], {"masks": masks, "lists": [scheds]}):
+    if not judge_experiment(ctx, "setters", "Experiment._validate_schedules", impl, vals[0], {"masks": masks, "lists": [scheds]},
+                            prefix=lambda: prefix_verdict(ctx, masks, scheds)):
         return
     if impl[0] != "ok":
         return
+    cur_masks = [list(m_) for m_ in masks]
     for n, op in enumerate(ops):
         mod = vals[1 + n]
         name = SETTER.get(op["set"], "schedules")
@@ -565,8 +579,13 @@ def chk_setters(ctx, case):
             impl = classify_exc(ex)
         ctx.count("setters", key=(json.dumps(case), n), label="%s-%s" % (name, label_of(mod)), nontrivial=True)
         rep = dict(case, ops=ops[:n + 1])
-        if not judge_experiment(ctx, "setters", site, impl, mod, rep):
+        pf = None
+        if op["set"] == "schedules":
+            pf = lambda cm=[list(m_) for m_ in cur_masks], v=op["value"]: prefix_verdict(ctx, cm, v)
+        if not judge_experiment(ctx, "setters", site, impl, mod, rep, prefix=pf):
             return
+        if impl[0] == "ok" and op["set"] != "schedules":
+            cur_masks[KINDS.index(op["set"])] = list(op["mask"])
         after = {a: getattr(e, a) for a in before}
         for a in before:
             expect_new = (a == name and impl[0] == "ok")
@@ -648,7 +667,8 @@ def chk_exec(ctx, case):
         impl = ("ok", None, None)
     except Exception as ex:
         impl = classify_exc(ex)
-    if not judge_experiment(ctx, "exec", "Experiment._validate_schedules", impl, ctor, {"masks": masks, "lists": [scheds]}):
+    if not judge_experiment(ctx, "exec", "Experiment._validate_schedules", impl, ctor, {"masks": masks, "lists": [scheds]},
+                            prefix=lambda: prefix_verdict(ctx, masks, scheds)):
         return
     if impl[0] != "ok" or ctor[0] != 0:
         ctx.count("exec", key=json.dumps(case), label="not-constructed", nontrivial=False)
@@ -732,7 +752,8 @@ def run_tomo_batch(ctx, cls, ns, np_, alpha, args_enc, arg_py_fn, replay_fn):
     CH = 4000
     for off in range(0, len(args_enc), CH):
         chunk = args_enc[off:off + CH]
-        zs = [TCLS.index(cls), ns, np_] + alpha.encode() + [len(chunk)]
+        head = [TCLS.index(cls), ns, np_] + alpha.encode()
+        zs = head + [len(chunk)]
         for a in chunk:
             zs += a
         vals = m.call("c20.tomo", zs)
@@ -745,15 +766,14 @@ def run_tomo_batch(ctx, cls, ns, np_, alpha, args_enc, arg_py_fn, replay_fn):
                 got = "ok"
             except Exception as ex:
                 got = classify_exc(ex)[0]
-            ctx.count("tomo", key=(cls, ns, np_, tuple(chunk[n])), label="%s-%s%s" % (cls, mcls, "" if shape_ok or mcls != "ok" else "-NOT-SHAPE"),
-                      nontrivial=len(chunk[n]) >= 5)
+            ctx.count("tomo", key=(cls, ns, np_, tuple(chunk[n])), label="%s-%s" % (cls, mcls), nontrivial=len(chunk[n]) >= 5)
             accepted = (got == "ok")
+            if (mcls == "ok") != shape_ok:
+                # impossible by theorems C20_tomo_accepts_iff_shape / C20_class_shapeb_iff / C20_tomo_all_accepted
+                raise AssertionError("model verdict %s contradicts the shape predicate %s: %s" % (mcls, shape_ok, replay_fn(off + n)))
             if accepted == shape_ok:
-                if accepted != (mcls == "ok"):
-                    ctx.note_once("%s: implementation follows the documented shape where the faithful model of the pinned tree does not "
-                                  "(model %s, implementation %s) — code fixed relative to finding C20-1" % (TSITE[cls], mcls, got))
-                elif not accepted:
-                    exp_cls = {"item": "item", "order": "order", "unbound": "unbound", "guard-value": "other:ValueError",
+                if not accepted:
+                    exp_cls = {"item": "item", "order": "order", "guard-value": "other:ValueError",
                                "guard-index": "other:IndexError", "str-value": "other:ValueError"}[mcls]
                     if got != exp_cls:
                         ctx.tomo_cls_diff = getattr(ctx, "tomo_cls_diff", 0) + 1
@@ -761,14 +781,16 @@ def run_tomo_batch(ctx, cls, ns, np_, alpha, args_enc, arg_py_fn, replay_fn):
                                       % (cls, mcls, got, json.dumps(replay_fn(off + n))[:160]))
                 continue
             rep = replay_fn(off + n)
-            if accepted and mcls == "ok":
-                # exactly the class of inputs of theorem C20_qmpt_accepts_iff / ..._refuted (finding C20-1)
-                sig = "accepts-longer-schedule:trailing-mprocess-items"
-                what = ("%s constructed with a schedule that is its documented shape FOLLOWED BY further items (the guard only "
-                        "looks at positions 0..2; the faithful model accepts it too)" % TSITE[cls])
-            elif accepted:
-                sig = "accepts-schedule-not-of-class-shape"
-                what = "%s constructed with a schedule list that is not of its documented shape (model of the pinned code: %s)" % (TSITE[cls], mcls)
+            if accepted:
+                old = unpack(m.call("c20.tomo0", head + [1] + chunk[n])[0])
+                if CLS[old[0]] == "ok":
+                    # exactly the inputs of theorems C20_qmpt_before_fix_accepts_iff / ..._refuted (finding C20-1)
+                    sig = "accepts-longer-schedule:trailing-mprocess-items"
+                    what = ("%s constructed with a schedule that is its documented shape FOLLOWED BY further items (the guard only "
+                            "looks at positions 0..2); the implementation behaves like the code before fix c20-qmpt-schedule-length" % TSITE[cls])
+                else:
+                    sig = "accepts-schedule-not-of-class-shape"
+                    what = "%s constructed with a schedule list that is not of its documented shape (model: %s)" % (TSITE[cls], mcls)
             else:
                 sig = "rejects-schedule-of-class-shape"
                 what = "%s raised %s for schedules of its documented shape" % (TSITE[cls], got)
@@ -824,9 +846,121 @@ def sub_tomo(ctx):
     ctx.run_cases("tomo", chk_tomo, cases)
 
 
+# ---------------------------------------------------------------------------------------------- sub: tomo_exec
+def shape_schedules(cls, ns, np_):
+    """every schedule of the class's documented shape (the set theorem C20_class_all_complete speaks about), in the order
+    the constructors expand "all" """
+    if cls == "qst":
+        return [[["state", 0], ["povm", j]] for j in range(np_)]
+    if cls == "povmt":
+        return [[["state", i], ["povm", 0]] for i in range(ns)]
+    mid = "gate" if cls == "qpt" else "mprocess"
+    return [[["state", i], [mid, 0], ["povm", j]] for i in range(ns) for j in range(np_)]
+
+
+def class_masks(cls, ns, np_):
+    return {"qst": [[0], [1] * np_, [], []], "povmt": [[1] * ns, [0], [], []], "qpt": [[1] * ns, [1] * np_, [0], []],
+            "qmpt": [[1] * ns, [1] * np_, [], [0]]}[cls]
+
+
+def chk_tomo_exec(ctx, case):
+    """the Experiment a tomography object holds: "all" expands to exactly the class's schedules; every schedule refers to the
+    None placeholder of the estimated object (calc_prob_dist -> ValueError, as the model says); after the placeholder is
+    replaced (in place, as generate_empi_dists does, and through the setter) every schedule executes and yields a normalised
+    distribution of the right size"""
+    prep(ctx)
+    cls, ns, np_ = case["cls"], case["ns"], case["np"]
+    arg = case["schedules"]
+    expected = shape_schedules(cls, ns, np_) if arg == "all" else arg
+    site = TSITE[cls] + ".__init__"
+    try:
+        tomo = tomo_build(cls, ns, np_, "all" if arg == "all" else [sched_py(s) for s in arg])
+    except Exception as ex:
+        ctx.count("tomo_exec", key=("ctor", json.dumps(case)), label="%s-rejected" % cls, nontrivial=True)
+        ctx.violation("tomo_exec", TSITE[cls] + "._validate_schedules", "rejects-schedule-of-class-shape",
+                      "%s raised %s for schedules of its documented shape (%s)" % (TSITE[cls], classify_exc(ex)[0], "'all'" if arg == "all" else json.dumps(arg)[:200]), case)
+        return
+    exp = getattr(tomo, "_experiment", None)
+    if exp is None:
+        ctx.note_once("tomography objects no longer expose _experiment: tomo_exec skipped")
+        return
+    got = [[list(it) for it in s] for s in exp.schedules]
+    ctx.count("tomo_exec", key=("schedules", json.dumps(case)), label="%s-%s" % (cls, "all" if arg == "all" else "custom"), nontrivial=True)
+    if got != expected:
+        ctx.violation("tomo_exec", site, "all-expansion" if arg == "all" else "schedules-not-kept",
+                      "%s(schedules=%s) holds the schedules %s, expected %s" % (TSITE[cls], "'all'" if arg == "all" else "custom", json.dumps(got)[:200], json.dumps(expected)[:200]), case)
+        return
+    masks = class_masks(cls, ns, np_)
+    m = ctx.get_model()
+    alpha = Alpha()
+    body = alpha.slist(expected)
+    queries = list(range(len(expected)))
+    q = [len(queries)]
+    for x in queries:
+        q += enc(x)
+    vals = [int(v) for v in m.call("c20.calc", enc_masks(masks) + alpha.encode() + body + q)]
+    if unpack(vals[0])[0] != 0:
+        raise AssertionError("model rejects schedules of the class shape: %s" % json.dumps(case))
+    p = pool()
+    target_kind = {"qst": "state", "povmt": "povm", "qpt": "gate", "qmpt": "mprocess"}[cls]
+    true_obj = {"state": p["state"][3], "povm": p["povm"][0], "gate": p["gate"][1], "mprocess": p["mprocess"][0]}[target_kind]
+    attr = SETTER[target_kind]
+    outc = {"povm": [2, 2, 2, 3], "mprocess": [2]}
+    for how in ("none", "inplace", "setter"):
+        e = exp.copy()
+        if how == "inplace":
+            getattr(e, attr)[0] = true_obj
+        elif how == "setter":
+            setattr(e, attr, [true_obj])
+        for n in queries:
+            code, a, b = vals[1 + 3 * n: 4 + 3 * n]
+            rep = dict(case, how=how, index=n)
+            try:
+                ps = e.calc_prob_dist(n)
+                res = "ok"
+            except Exception as ex:
+                ps, res = None, type(ex).__name__
+            ctx.count("tomo_exec", key=(json.dumps(case), how, n), label="%s-%s" % (cls, how), nontrivial=True)
+            if how == "none":
+                if code != 1:
+                    raise AssertionError("model: a class schedule does not refer to the placeholder: %s" % json.dumps(rep))
+                if res != "ValueError":
+                    ctx.violation("tomo_exec", "Experiment.calc_prob_dist", "none-placeholder-not-rejected",
+                                  "%s: schedule %d refers to the estimated object's None placeholder; calc_prob_dist gave %s, expected ValueError" % (TSITE[cls], n, res), rep)
+                continue
+            if res != "ok":
+                ctx.violation("tomo_exec", "Experiment.calc_prob_dist", "does-not-execute",
+                              "%s: accepted schedule %s does not execute after the placeholder was replaced (%s): %s" % (TSITE[cls], json.dumps(expected[n]), how, res), rep)
+                continue
+            size = 1
+            for it in expected[n]:
+                if it[0] in outc:
+                    size *= (2 if (it[0] == target_kind) else outc[it[0]][it[1]])
+            ps = np.asarray(ps, dtype=float).ravel()
+            if ps.size != size or abs(ps.sum() - 1.0) > 1e-9 or ps.min() < -1e-9:
+                ctx.violation("tomo_exec", "Experiment.calc_prob_dist", "not-normalised",
+                              "%s schedule %s (%s): %d probabilities (expected %d), sum %.12g, min %.3g" % (TSITE[cls], json.dumps(expected[n]), how, ps.size, size, ps.sum(), ps.min()), rep)
+
+
+def sub_tomo_exec(ctx):
+    cases = []
+    sizes = [(2, 2), (1, 3), (3, 4)] if ctx.quick else [(1, 1), (2, 2), (1, 3), (3, 1), (3, 4), (4, 4)]
+    for cls in TCLS:
+        for ns, np_ in sizes:
+            cases.append({"cls": cls, "ns": ns, "np": np_, "schedules": "all"})
+            full = shape_schedules(cls, ns, np_)
+            rng = ctx.rng
+            for _ in range(ctx.n(2, 6)):
+                k = rng.randint(1, min(4, len(full) + 1))
+                cases.append({"cls": cls, "ns": ns, "np": np_, "schedules": [rng.choice(full) for _ in range(k)]})
+    ctx.sample("tomo_exec", cases[1])
+    ctx.run_cases("tomo_exec", chk_tomo_exec, cases)
+
+
 # ---------------------------------------------------------------------------------------------- sub: witness
 def chk_witness(ctx, case):
-    """the witnesses of the _refuted theorems in Props/C20.v, replayed on the implementation"""
+    """the witnesses of the ..._before_fix_refuted theorems in Props/C20.v, replayed on the implementation: on a tree with the
+    repairs both are rejected as the repaired model says; on a tree without them the recorded defects are reported"""
     prep(ctx)
     if "lists" in case:
         return chk_schedule(ctx, dict(case, sub="witness"))
@@ -834,7 +968,8 @@ def chk_witness(ctx, case):
         return chk_tomo(ctx, case)
     if case["which"] == "qmpt":
         chk_tomo(ctx, {"cls": "qmpt", "ns": 1, "np": 1,
-                       "args": [{"lists": [[["state", 0], ["mprocess", 0], ["povm", 0], ["mprocess", 0]]]}]})
+                       "args": [{"lists": [[["state", 0], ["mprocess", 0], ["povm", 0], ["mprocess", 0]]]},
+                                {"lists": [[["state", 0], ["mprocess", 0]]]}]})
     else:
         chk_schedule(ctx, {"masks": [[1], [1], [], []], "lists": [[{"noniter": "none"}]], "sub": "witness"})
 
@@ -844,12 +979,67 @@ def sub_witness(ctx):
 
 
 SUBS = [("witness", sub_witness), ("items", sub_items), ("schedule", sub_schedule), ("lists", sub_lists),
-        ("setters", sub_setters), ("exec", sub_exec), ("tomo", sub_tomo)]
+        ("setters", sub_setters), ("exec", sub_exec), ("tomo", sub_tomo), ("tomo_exec", sub_tomo_exec)]
 FNS = {"witness": chk_witness, "items": chk_items, "schedule": chk_schedule, "lists": chk_lists, "setters": chk_setters,
-       "exec": chk_exec, "tomo": chk_tomo}
+       "exec": chk_exec, "tomo": chk_tomo, "tomo_exec": chk_tomo_exec}
+
+
+def regen_validators(ctx):
+    """translator tie (same protocol as flow.regen_check, with this property's own translator gen/c20_py2coq.py):
+    regenerate Gallina definitions of Experiment._validate_schedule_item, Experiment._validate_schedule_order and of the four
+    class guards from the CURRENT source, compile them, and re-check coq/gen/C20_Equiv.v (regenerated agrees with the
+    hand-written model on all inputs; transported theorems).
+    returns (ok, info)"""
+    import os, shutil, subprocess, sys
+    import runner
+    V = runner.V
+    scratch = os.path.join(V, "build", ctx.prop_id, "gen")
+    os.makedirs(scratch, exist_ok=True)
+    gen_v = os.path.join(scratch, "Gen_c20_validators.v")
+    for stem in (gen_v[:-2], os.path.join(scratch, "C20_Equiv")):
+        for ext in (".vo", ".vos", ".vok", ".glob"):
+            try:
+                os.remove(stem + ext)
+            except OSError:
+                pass
+    equiv = os.path.join(V, "coq", "gen", "C20_Equiv.v")
+    src = open(equiv).read()
+    src_nc = re.sub(r"\(\*.*?\*\)", " ", src, flags=re.S)
+    thms = re.findall(r"^\s*Theorem\s+([\w']+)", src_nc, flags=re.M)
+    ctx.theorems = list(ctx.theorems) + [t for t in thms if t not in ctx.theorems]
+    ctx.obligations += len(thms)
+    r = subprocess.run([sys.executable, os.path.join(V, "gen", "c20_py2coq.py"), os.environ.get("VERIF_REPO", "/repo"), gen_v],
+                       capture_output=True, text=True, timeout=120)
+    if r.returncode != 0:
+        return False, {"theorem": thms[0], "error": "translator rejected the source (outside its subset): " + (r.stdout + r.stderr)[-600:]}
+    q = ["-Q", os.path.join(V, "coq", "theories"), "QV", "-Q", scratch, "QVGen"]
+    r = subprocess.run(["timeout", "300", "coqc"] + q + [gen_v], capture_output=True, text=True)
+    if r.returncode != 0:
+        return False, {"theorem": thms[0], "error": "regenerated validators do not compile: " + (r.stdout + r.stderr)[-600:]}
+    dst = os.path.join(scratch, "C20_Equiv.v")
+    shutil.copy(equiv, dst)
+    r = subprocess.run(["timeout", "600", "coqc"] + q + [dst], capture_output=True, text=True)
+    out = r.stdout + r.stderr
+    if r.returncode != 0:
+        m_ = re.search(r"line (\d+), characters", out)
+        thm = None
+        if m_:
+            upto = "\n".join(src.splitlines()[:int(m_.group(1))])
+            names = re.findall(r"^\s*(?:Theorem|Lemma)\s+([\w']+)", upto, flags=re.M)
+            thm = names[-1] if names else None
+        return False, {"theorem": thm, "error": out[-800:]}
+    blocks = runner.parse_assumptions(out)
+    bad = [a for closed, axs in blocks for a in axs if a not in runner.ALLOWED_AXIOMS and a.split(".")[-1] not in runner.ALLOWED_AXIOMS]
+    if len(blocks) != len(thms) or bad:
+        return False, {"theorem": thms[0], "error": "assumption gate on regenerated proofs: %d blocks / %d theorems, disallowed %s" % (len(blocks), len(thms), bad)}
+    for t, (closed, axs) in zip(thms, blocks):
+        ctx.axioms[t] = "closed" if closed else sorted(set(axs))
+    ctx.discharged += len(thms)
+    return True, {}
 
 
 def run(ctx):
+    import runner
     ctx.rule = ("exhaustive enumeration: every word over a finite item alphabet (4 kinds x in/out-of-range indices + malformed "
                 "items: wrong arity, non-tuple, non-str kind, bool/float/None/numpy/subclass index, unknown kind) up to length 4 "
                 "(5-6 on reduced alphabets), under all 81 list-size configurations {0,1,2}^4 with random None placeholders; lists "
@@ -858,7 +1048,23 @@ def run(ctx):
                 "exception class vs the verdict of the extracted Coq model. non-trivial = schedule list with >= 2 items in total; "
                 "distinct = distinct (configuration, schedule list / op sequence)")
     prep(ctx)
-    flow.standard_run(ctx, SUBS)
+    # flow.standard_run with this property's own translator tie (flow.regen_check is bound to gen/py2coq.py)
+    ok, info = runner.check_props(ctx)
+    ok2, info2 = regen_validators(ctx)
+    if not ok2:
+        ok, info = False, info2
+        ctx.note("regenerated-validator obligations (coq/gen/C20_Equiv.v) not discharged: %s" % str(info2)[:400])
+    if not ok:
+        ctx.discharged = min(ctx.discharged, ctx.obligations - 1)
+    for name, fn in SUBS:
+        if ctx.only is None or name in ctx.only:
+            fn(ctx)
+    if not ok and not ctx.violations:
+        ctx.violation("theorems", "Props/%s.v" % ctx.prop_id, "theorem-broken:%s" % info.get("theorem"),
+                      "theorem %s no longer checks: %s" % (info.get("theorem"), info.get("error", "")[-400:]),
+                      {"theorem": info.get("theorem"), "error": info.get("error")}, no_input=True)
+    elif not ok:
+        ctx.note("theorem obligations not discharged: %s" % info)
     if ctx.pos_mismatch:
         ctx.note("error-position mismatches (message text only): %d" % ctx.pos_mismatch)
 
